@@ -1,0 +1,29 @@
+//go:build verif
+
+package feat
+
+// Contracts for the deductive verifier in /verif (govc). This file is only
+// compiled with -tags verif; it adds no behaviour to the package.
+
+//@ func OneToZero
+//@   property C02 C03 C20
+//@   requires pos != 0
+//@   ensures  pos > 0 ==> result == pos - 1
+//@   ensures  pos < 0 ==> result == pos
+//@ func ZeroToOne
+//@   property C02 C20
+//@   ensures  pos >= 0 ==> result == pos + 1
+//@   ensures  pos <  0 ==> result == pos
+
+//@ func verifLemmaZeroOneZero
+//@   property C02 C20
+//@   lemma
+//@   ensures result == p
+func verifLemmaZeroOneZero(p int) int { return OneToZero(ZeroToOne(p)) }
+
+//@ func verifLemmaOneZeroOne
+//@   property C02 C20
+//@   lemma
+//@   requires p != 0
+//@   ensures result == p
+func verifLemmaOneZeroOne(p int) int { return ZeroToOne(OneToZero(p)) }
